@@ -91,7 +91,15 @@ func (c *CoffCase) globals() []string {
 // assembleCoff runs both forms and returns (object bytes, flat bytes, skip reason).
 func assembleCoff(c *CoffCase) (obj, flat []byte, skip string) {
 	src := c.source(true)
-	r := asm.Assemble(src)
+	// every other object is written over an existing, longer file (its old tail must not survive)
+	var r *asm.Result
+	if hash64(src)%2 == 0 {
+		path := filepath.Join(asm.TmpDir(), "coff-prefilled.obj")
+		os.WriteFile(path, bytes.Repeat([]byte{0xcc, 0x00, 0xff, 0x4c}, 40000), 0o644)
+		r = asm.AssembleTo(src, path, true)
+	} else {
+		r = asm.Assemble(src)
+	}
 	// baseline: directives only (they print content-free warnings); GLOBAL of an undefined name warns by design
 	bc := *c
 	bc.Stmts, bc.Labels, bc.Before, bc.After, bc.Externs = nil, nil, nil, nil, nil
